@@ -161,7 +161,7 @@ def run_tlc(specdir, module, cfg, env=None, workers=1, timeout=600, extra=None, 
     """Run TLC on a scratch copy of specdir. Returns TlcResult.
     consts: {name: value-text} overrides `name = ...` lines of the cfg."""
     work = tempfile.mkdtemp(prefix="tlc-", dir=scratch())
-    for root in (os.path.join(SPECS, "common"), specdir):
+    for root in (specdir,):
         for f in os.listdir(root):
             if f.endswith((".tla", ".cfg")):
                 shutil.copy(os.path.join(root, f), work)
